@@ -33,7 +33,7 @@ CHECKS = {
         category="other",
         text="Round trips var<->object<->stacked vector for all four types, both flags, outcome counts 2..3 (thorough ..5), 1 qubit/qutrit (thorough 2 qubits) are decided "
              "for ALL parameter values in the box; index maps are decided for ALL indices as symbolic integers (inverse, range, 'points at the entry holding "
-             "the variable' via ITE-select, calc_gradient one-hot); SetQOperations total/local index maps and set_qoperations_from_var_total on mixed sets. Bounded by the configuration list.",
+             "the variable' via ITE-select, calc_gradient one-hot); SetQOperations total/local index maps and set_qoperations_from_var_total on mixed sets, also after an operation was added through a property setter; generate_from_var with every combination of (object flag) x (on_para_eq_constraint argument None/True/False) and the other keyword arguments. Bounded by the configuration list.",
         design_ref="DESIGN.md 3/C03"),
     "C04": dict(
         technique="symbolic execution of the real projection methods (spectral parametrisation for eigh, uninterpreted eigh for obj/var congruence) + z3 (QF_LRA/NRA) verdict per path",
@@ -49,13 +49,13 @@ CHECKS = {
         text="For max_iteration K (3 quick, 5 thorough; the API's own bound, so the loop is explored completely) and every path of the stopping test, the returned point, every "
              "history entry (p,q,x,y,error_value) and the stopping decision equal the reference Dykstra recurrence over the same uninterpreted P_eq/P_ineq, for both projection "
              "orders, both flags, object- and variable-level and all four types; object-level == variable-level == closures; an already-physical input (P_eq,P_ineq fix it) is returned "
-             "unchanged. Nearest-point-ness of the limit is the Boyle-Dykstra theorem given C04 and is NOT checked; convergence/accuracy are outside.",
+             "unchanged; the number of sweeps is taken from the reference stopping rule, not from the routine's own history; variable-level calls whose flag differs from the object's flag.  Nearest-point-ness of the limit is the Boyle-Dykstra theorem given C04 and is NOT checked; convergence/accuracy are outside.",
         design_ref="DESIGN.md 3/C05"),
     "C06": dict(
         technique="symbolic execution of the real compose_qoperations on symbolic states/gates against Kraus-operator and Born-rule reference formulas; z3 (LRA, polynomial identities under monomial relaxation, exact NRA for 1-parameter chains)",
         category="other",
         text="Pairwise semantics (gate-state, gate-gate, POVM-state Born rule, Heisenberg POVM, measurement process on a state incl. post-measurement states and zero-probability "
-             "outcomes, process-process, induced POVM, generate_mprocess modes 0/1/2) for a symbolic state/gate against a library of non-commuting, non-self-adjoint operations with "
+             "outcomes, process-process, induced POVM, generate_mprocess modes 0/1/2 incl. a repeated eigenvalue, zero-probability conditional outcomes, a POVM after a zero-weight ensemble member, outcome shapes kept through gate composition) for a symbolic state/gate against a library of non-commuting, non-self-adjoint operations with "
              "different outcome counts; all type-valid bracketings of chains of length 3-4 (thorough: 5) give the reference statistics in time-ordered row-major layout. Bounded: 1 qubit "
              "(qutrit / 2 qubits for the linear pairs), probabilities >= 1e-3, library listed in checks/objlib.py.",
         design_ref="DESIGN.md 3/C06"),
@@ -86,7 +86,7 @@ CHECKS = {
         category="other",
         text="(1) ProjectedLinearEstimator on symbolic data returns exactly to_var(physical projection, in the requested order, of the linear estimate) (projections uninterpreted, Dykstra "
              "unrolled through its own max_iteration); (2) set_constraint_from_standard_qt_and_option picks, for every flag combination and also on a RE-USED algorithm object, the "
-             "documented projection (applied to a symbolic variable vector); (3) all three algorithms start from the origin object's variables, which are physical; (4) exact data of a physical "
+             "documented projection (applied to a symbolic variable vector); (3) all three algorithms start from the origin object's variables, which are physical, and leave their option object unchanged; (3b) LossMinimizationEstimator.calc_estimate_sequence configures the loss for EVERY data set (probe algorithm returning the loss gradient it sees); (4) exact data of a physical "
              "1-qubit state / 2-3-outcome POVM (symbolic spectrum incl. boundary) -> the projected linear estimator returns that object, with the REAL projections. That every iterate is a "
              "projected point / convex combination is decided in C11's step obligations. Convergence of the physical projection and accuracy to thresholds are outside.",
         design_ref="DESIGN.md 3/C10"),
@@ -95,7 +95,7 @@ CHECKS = {
         category="other",
         text="Backtracking: every new iterate is x + alpha (P(x - g/mu) - x) with alpha = 2^-j (convex combination of feasible points), the Armijo exit condition holds, and together with the "
              "nearest-point axiom instance of P it implies f(x_next) <= f(x) (loss never increases); the four stopping modes compute the documented quantities over the history window and the loop "
-             "stops exactly when the windowed sum <= eps; histories are consistent. Momentum and FISTA update rules equal their reference recurrences. One inductive step from an arbitrary state covers "
+             "stops exactly when the windowed sum <= eps; histories are consistent. Momentum and FISTA update rules equal their reference recurrences; the option object is not written to. One inductive step from an arbitrary state covers "
              "runs of any length. NOT claimed: that the limit is the constrained optimum, agreement with the CVXPY/SCS estimator (external C solver), alpha halving deeper than the unrolled depth.",
         design_ref="DESIGN.md 3/C11"),
     "C12": dict(
@@ -103,7 +103,7 @@ CHECKS = {
         category="other",
         text="Squared-error losses (generic and fast): exact Taylor identity f(x+h)-f(x)-<grad,h>-1/2 h^T H h = 0 in symbolic (x,h,q,W) and value == weighted squared distance on the model probabilities; "
              "fast == generic (value, gradient) under identity / custom / inverse-covariance weights; every accepted weighting mode equals the reference with the documented weights (2-3 outcomes, thorough 4-5). "
-             "Relative entropy (generic and fast), away from the clipping thresholds: value, gradient and Hessian equal the defining formulas with ln uninterpreted. SimpleQuadraticLossFunction Taylor identity.",
+             "Testers with elements of unequal trace, unequal shot counts per schedule, and the constructor + direct-setter route are included. Relative entropy (generic and fast), away from the clipping thresholds: value, gradient and Hessian equal the defining formulas with ln uninterpreted. SimpleQuadraticLossFunction Taylor identity.",
         design_ref="DESIGN.md 3/C12"),
     "C13": dict(
         technique="symbolic execution of real operation histories on a shared pool of symbolic objects + comparison with a fresh pool (syntactic term identity first, z3 otherwise); bounded history length",
@@ -111,7 +111,7 @@ CHECKS = {
         text="Every ordered pair (thorough: triples on a reduced set) of 26 public operations (conversions, verdicts, projections, composition, tensor, copies, probability "
              "calculation, tomography construction, loss evaluation ...) on one shared composite system and object pool with symbolic parameters: after every step every pool object's "
              "parameters are unchanged, and afterwards every probe returns what it returns on a freshly built pool. Copies are independent of in-place overwrites of the original; Povm stores "
-             "private read-only arrays; basis tables are read-only; symbolic empirical distributions (entries below the 1e-8 replacement threshold reachable) handed to the data-taking operations (replace_prob_dist, covariance, Fisher matrix, linear estimate, losses incl. inverse-covariance modes) are unchanged afterwards; a loss object re-configured (dataset / weighting mode sequences of length <=3) equals a fresh loss for every x. "
+             "private read-only arrays; basis tables are read-only; accessors return fresh results after handed-out arrays were overwritten or the parameters updated in place; building projection closures configures nothing;  symbolic empirical distributions (entries below the 1e-8 replacement threshold reachable) handed to the data-taking operations (replace_prob_dist, covariance, Fisher matrix, linear estimate, losses incl. inverse-covariance modes) are unchanged afterwards; a loss object re-configured (dataset / weighting mode sequences of length <=3) equals a fresh loss for every x. "
              "Bounded by history length 2 (3) and the operation list; caches keyed by anything else are outside.",
         design_ref="DESIGN.md 3/C13"),
     "C14": dict(
@@ -120,7 +120,7 @@ CHECKS = {
         text="_random_number_to_data / generate_data_from_prob_dist: for every probability vector the validator accepts (exact zeros, sum deficit up to 9e-14) and every draw in [0,1) the "
              "outcome is in range, has non-zero probability and is the inverse-CDF image (n<=4 outcomes, N<=3 draws; thorough n<=6, N<=4). calc_empi_dist_sequence on symbolic integer data "
              "(L<=4, thorough 5; K<=2 prefixes): counts/num_sum, non-negative, sums to one, raises only under the documented conditions. Multinomial route with rvs replaced by its contract; every returned (n, distribution) of Experiment / tomography entry points carries the requested sample size for its (step, schedule) position (unequal sizes). "
-             "Seed data-flow: with an integer seed the output depends on that seed's stream only, equal seeds consume equal draws, None uses the global stream, a shared generator advances; CrossHair on the real to_stream with a SYMBOLIC integer seed in [0,2^32): always a new generator over MT19937(seed). "
+             "All three sampling entry points of all four tomography classes draw with the requested size from the distribution of their schedule (recording multinomial stub). Seed data-flow: with an integer seed the output depends on that seed's stream only, equal seeds consume equal draws, None uses the global stream, a shared generator advances; CrossHair on the real to_stream with a SYMBOLIC integer seed in [0,2^32): always a new generator over MT19937(seed). "
              "NOT claimed: anything about MT19937/PCG bit streams or scipy's multinomial sampler (C code).",
         design_ref="DESIGN.md 3/C14"),
     "C18": dict(
@@ -137,7 +137,7 @@ CHECKS = {
              "parametrisations, true object symbolic with all probabilities >= 1e-3: calc_covariance_mat_single/total == (diag p - p p^T)/N == enumerated multinomial covariance (N=2,3; thorough up to 4, unequal N per schedule); "
              "calc_mse_empi_dists_analytical == enumerated sum E|f-p|^2; calc_mse_linear_analytical (mode var and qoperation, incl. the implied POVM element) == enumerated E|estimate - truth|^2 "
              "with the real linear estimator (N=1,2; thorough 3); Fisher matrix == sum (grad p)(grad p)^T/p and weighted total; Cramer-Rao bound at a concrete interior point with SYMBOLIC N and unequal list_N == "
-             "Tr[(sum N_j F_j)^-1] (+ implied-element term), independent of N. matrix_util helpers (calc_se, calc_direct_sum, calc_conjugate, calc_covariance_mat, calc_left_inv). "
+             "Tr[(sum N_j F_j)^-1] (+ implied-element term), independent of N. matrix_util helpers (calc_se, calc_direct_sum, calc_conjugate, calc_covariance_mat, calc_left_inv), the default Fisher regularisation on a boundary distribution, data_analysis.calc_mse_qoperations and covariance helpers; over-complete tester sets with uneven N. "
              "NOT claimed: larger N / systems, asymptotic statements, the simulation-side Monte-Carlo comparisons.",
         design_ref="DESIGN.md 3/C19"),
     "C15": dict(
@@ -161,7 +161,7 @@ CHECKS = {
     "C20": dict(
         technique="path exploration of the real validation code with symbolic integer indices (unbounded) and forked kind selectors + z3 (QF_LIA) verdict 'accepted <=> 15-line spec' per path",
         category="other",
-        text="Experiment constructor, the five setters, malformed items, the four tomography classes' custom schedules (length <=4 quick, <=5 thorough) and 'all' expansion: for every "
+        text="Experiment constructor, the five setters, malformed items, the four tomography classes' custom schedules (length <=4 quick, <=5 thorough) and 'all' expansion, two-call histories (list setter then schedules setter), execution of schedules with several intermediate operations in order: for every "
              "kind sequence and list-size configuration the solver decides accepted <=> well-formed for ALL integer index values, and that rejection raises only the two schedule errors; "
              "accepted schedules are executed on a symbolic state. Bounded by schedule length and list sizes 0..2.",
         design_ref="DESIGN.md 3/C20"),
